@@ -52,6 +52,32 @@ def cases():
     return out
 
 
+AGG = ('fn g(s: []i32) -> i32\n{\n\treturn: 1\n}\n\nfn h2(x: i32, s: []i32) -> i32\n{\n\treturn: x\n}\n\n'
+       'struct W\n{\n\tn: i32,\n\tarr: [3]i32,\n}\n\nstruct P\n{\n\tx: i32,\n}\n\n')
+A3 = '\tvar a: [3]i32 = [1, 2, 3];\n'
+
+
+def aggregate_cases():
+    """whole arrays, views and structs cannot be copied by assignment (E531-E533); handing an array to a view parameter is
+    not a copy - also when the copy and the call share one statement"""
+    c = []
+    add = lambda body, exp, what, params='': c.append(('%sfn f(%s)\n{\n%s}\n' % (AGG, params, body), exp, what))
+    add(A3 + '\tvar b: [3]i32 = [4, 5, 6];\n\tb = a;\n', 'reject:531', 'whole array copied by assignment')
+    add(A3 + '\tvar b: [3]i32 = a;\n', 'reject:531', 'whole array copied by initialisation')
+    add('\tvar p: P = P { x: 1 };\n\tvar q: P = P { x: 2 };\n\tq = p;\n', 'reject:533', 'whole struct copied by assignment')
+    add('\tvar t: []i32 = s;\n', 'reject:532', 'array view copied by initialisation', 's: []i32')
+    add(A3 + '\tvar r: i32 = g(a);\n', 'accept', 'array handed to a view parameter')
+    add(A3 + '\tvar r: i32 = g(a) + g(a);\n', 'accept', 'array handed to view parameters twice in one expression')
+    add(A3 + '\tvar r: i32 = h2(g(a), a);\n', 'accept', 'array handed to a view parameter next to a nested call')
+    add(A3 + '\tvar k: [2]i32 = [g(a), 5];\n', 'accept', 'call with an array argument inside an array literal')
+    add(A3 + '\tvar b: [2][3]i32 = [a, a];\n', 'reject:531', 'whole array copied into an array literal')
+    add(A3 + '\tvar w: W = W { n: g(a), arr: a };\n', 'reject:531', 'whole array copied into a structure literal after a call in the same statement')
+    add(A3 + '\tvar w: W = W { arr: a, n: g(a) };\n', 'reject:531', 'whole array copied into a structure literal before a call in the same statement')
+    add(A3 + '\tvar b: [3]i32 = [4, 5, 6];\n\tvar r: i32 = g(a);\n\tb = a;\n', 'reject:531', 'whole array copied in the statement after a call')
+    add(A3 + '\tvar b: [2][3]i32 = [[0, 0, 0], [0, 0, 0]];\n\tvar r: i32 = h2(g(a), a);\n\tb[g(a)] = a;\n', 'reject:531', 'whole array copied into an element selected by a call')
+    return c
+
+
 def verdict_ok(exp, r):
     if r.get('status') in ('timeout', 'build-failed', 'unknown'):
         return True    # inconclusive run (machine load, tool failure): never a mismatch
@@ -67,7 +93,7 @@ def search(deadline, rng):
     if replayrun.build()[0] is None:
         return None
     import concurrent.futures as cf
-    cs = cases()
+    cs = cases() + aggregate_cases()
     rng.shuffle(cs)
 
     def one(c):
